@@ -43,6 +43,7 @@ def sphere(chk):
     tol = sp.Rational(1, 10**8)
     for p in chk.explore(fkey, run, assumptions=QD.facts()):
         if p.kind != "return":
+            chk.path_raised(fkey, p)
             continue
         t = path_tag(p)
         res = p.value
